@@ -15,7 +15,7 @@ T = {
 }
 
 T["C20"] = dict(
-    text="TLC exhaustively model-checks spec/Settings.tla (settings singleton + stack of context frames; Enter/ExitOne/Raise-to-level/Assign) to nesting depth 4 and 7-8 actions: action properties ExitRestores (every key named by a frame that is left has that frame's entry value, others untouched, on normal and exceptional exits) and EnterVisible; canary RestoreAll must fail. Every behaviour of a smaller instance is replayed with real nested `with fl.settings.context(...)` blocks, real exceptions caught at the chosen level and direct assignments, mapped onto all 42 ordered pairs of the 7 real settings (thorough: simulated behaviours over all 7), comparing vars(settings) and the helpers reading them after every step; recorded enter/exit events are validated by spec/Trace_Settings.tla.",
+    text="TLC exhaustively model-checks spec/Settings.tla (settings singleton + stack of context frames; Enter/ExitOne/Raise-to-level/Assign) to nesting depth 4 and 7-8 actions: action properties ExitRestores (every key named by a frame that is left has that frame's entry value, others untouched, on normal and exceptional exits) and EnterVisible; canary RestoreAll must fail. Every behaviour of a smaller instance is replayed with real nested `with fl.settings.context(...)` blocks, real exceptions caught at the chosen level and direct assignments, mapped onto all 42 ordered pairs of the 7 real settings (thorough: simulated behaviours over all 7), comparing vars(settings) and the helpers reading them after every step; recorded enter/exit events are validated by spec/Trace_Settings.tla. Context objects may also be created first and entered by a later step (Create / EnterCreated), after an assignment or inside another context.",
     note="Bounded: depth 4, 4-5 actions replayed, 2 model keys (independence argument) plus simulation over 7. Trusted: TLC, CPython's with-statement semantics, the harness.",
     technique="TLA+ state machine + TLC exhaustive model checking; spec->code behaviour replay; code->spec trace validation",
     ref="6. C20")
@@ -37,12 +37,12 @@ T["C05"] = dict(
     ref="6. C05")
 
 T["C01"] = dict(
-    text="spec/Engine.tla is an interpreter of an engine description (variables, terms, operators, defuzzifiers, rule blocks, rules as antecedent trees and conclusion lists) whose operators mirror Engine.process: clear fuzzy outputs, activate enabled blocks in order with the loop of each of the 7 activation methods, one contribution per enabled conclusion, aggregation and defuzzification (spec/Defuzzifiers.tla), value cascade. spec/Gen_Engine.tla runs it with TLC on a catalogue of ~50 engines (one per wiring aspect; thorough: +200 seeded random engines) over the product of breakpoints/midpoints/bounds/outside/+-inf/NaN of the inputs, checks design invariants in every state and emits the full observable projection; the same description is built with constructors into a real engine and every row compared: outputs, previous values, every fuzzy output (term, degree, implication, order), every rule degree and triggered flag.",
+    text="spec/Engine.tla is an interpreter of an engine description (variables, terms, operators, defuzzifiers, rule blocks, rules as antecedent trees and conclusion lists) whose operators mirror Engine.process: clear fuzzy outputs, activate enabled blocks in order with the loop of each of the 7 activation methods, one contribution per enabled conclusion, aggregation and defuzzification (spec/Defuzzifiers.tla), value cascade. spec/Gen_Engine.tla runs it with TLC on a catalogue of ~50 engines (one per wiring aspect; thorough: +200 seeded random engines) over the product of breakpoints/midpoints/bounds/outside/+-inf/NaN of the inputs, checks design invariants in every state and emits the full observable projection; the same description is built with constructors into a real engine and every row compared: outputs, previous values, every fuzzy output (term, degree, implication, order), every rule degree and triggered flag. Engines that were used before and edited since are covered by spec/MC_Lifecycle in edit mode (one of 19 kinds of configuration edit between two process() calls, replayed by attribute assignment on the real objects), every second catalogue engine shares its operator / defuzzifier objects between blocks / outputs as Engine.configure assigns them, and - code->spec - every real process() call recorded by the run-time tracer on the shipped examples, the catalogue engines and (thorough) the repository's own tests is validated by spec/Trace_Engine.tla: phase order, selection by the activation method and every contribution to every fuzzy output, with the recorded degrees rank-abstracted.",
     note="Exact rational arithmetic in TLC (32-bit: product-family operators run on a coarser grid); engines bounded (<=3 inputs, <=3 outputs, <=2 blocks); 1e-9 tolerance; rows whose expectation needs a non-square root are skipped and counted; under tie-prone defuzzifiers a mismatching value is accepted only through the C09 reduction link.",
     technique="TLA+ interpreter specification evaluated by TLC on engine descriptions; spec->code replay of every row with full state comparison",
     ref="6. C01")
 T["C07"] = dict(
-    text="TLC checks spec/MC_Consequent (Conclude/Trigger of Engine.tla) on all consequents of 1-3 conclusions over 3 output variables with hedge chains, 4 enabled patterns, degrees incl. NaN/+-inf: one contribution per enabled conclusion, independence from the other conclusions, stored degrees, order independence; the defect-shaped hedge-leaking variant is the canary and must fail. Each consequent is printed, loaded with Rule.create and triggered on a real engine with scalar degrees, one batch, and through RuleBlock.activate; fuzzy outputs compared.",
+    text="TLC checks spec/MC_Consequent (Conclude/Trigger of Engine.tla) on all consequents of 1-3 conclusions over 3 output variables with hedge chains, 4 enabled patterns, degrees incl. NaN/+-inf: one contribution per enabled conclusion, independence from the other conclusions, stored degrees, order independence; the defect-shaped hedge-leaking variant is the canary and must fail. Each consequent is printed, loaded with Rule.create and triggered on a real engine with scalar degrees, one batch, and through RuleBlock.activate; fuzzy outputs compared. The block's implication object is replaced between the triggers of the same loaded rule.",
     note="6,440 consequents x 7 degrees; irrational expectations skipped (counted).",
     technique="TLA+ specification + TLC exhaustive check with canary; spec->code replay",
     ref="6. C07")
@@ -64,7 +64,7 @@ T["C09"] = dict(
     ref="6. C09")
 
 T["C08"] = dict(
-    text="TLC checks spec/MC_Activations: on blocks of 1-3 (thorough 4) rules with forced degrees, all degree vectors over 5 values (NaN too for <=2 rules), all-on / one-disabled / one-unloaded patterns and every parameter value of the 7 methods, the loops of Engine.ActivateBlock (shaped like activation.py: counters, heaps keyed by (degree, index), two-pass Proportional) equal a declarative selection written from the property (ranks, ties by insertion order); canary with reversed tie-break must fail. All ~107k cases are replayed on one long-lived real rule block: activation_degree, triggered, fuzzy output in firing order; batches must be rejected by the six vector-incapable methods.",
+    text="TLC checks spec/MC_Activations: on blocks of 1-3 (thorough 4) rules with forced degrees, all degree vectors over 5 values (NaN too for <=2 rules), all-on / one-disabled / one-unloaded patterns and every parameter value of the 7 methods, the loops of Engine.ActivateBlock (shaped like activation.py: counters, heaps keyed by (degree, index), two-pass Proportional) equal a declarative selection written from the property (ranks, ties by insertion order); canary with reversed tie-break must fail. All ~107k cases are replayed on one long-lived real rule block: activation_degree, triggered, fuzzy output in firing order; batches must be rejected by the six vector-incapable methods. Two of three cases re-use a long-lived method object whose public parameters are re-assigned between activations.",
     note="Degrees forced through Ramp(0,1) inputs; blocks up to 4 rules exhaustively.",
     technique="TLA+ step machine vs declarative definition checked by TLC; spec->code replay",
     ref="6. C08")
@@ -76,7 +76,7 @@ T["C06"] = dict(
     ref="6. C06")
 
 T["C19"] = dict(
-    text="spec/Readiness.tla writes the documented readiness errors over engine descriptions; spec/MC_Readiness.tla checks with TLC, for 9 base engines and every subset of their removable operators (conjunction/disjunction/implication per block, aggregation/defuzzifier per output) on finite rows, that ReadyErrors = {} with activation methods present implies Engine.tla's process does not meet a missing operator, and that an operator whose removal alone makes processing raise is reported; the variant with the disjunction test nested under the conjunction test (the pinned code's shape) is the canary and TLC produces its ready-but-raises counterexample. Every configuration is replayed: is_ready's messages mapped to (operator, component) tags vs the model's set, process() raising or not on every row.",
+    text="spec/Readiness.tla writes the documented readiness errors over engine descriptions; spec/MC_Readiness.tla checks with TLC, for 9 base engines and every subset of their removable operators (conjunction/disjunction/implication per block, aggregation/defuzzifier per output) on finite rows, that ReadyErrors = {} with activation methods present implies Engine.tla's process does not meet a missing operator, and that an operator whose removal alone makes processing raise is reported; the variant with the disjunction test nested under the conjunction test (the pinned code's shape) is the canary and TLC produces its ready-but-raises counterexample. Every configuration is replayed: is_ready's messages mapped to (operator, component) tags vs the model's set, process() raising or not on every row. Every configuration is replayed twice: with own component objects and with operator / defuzzifier objects shared between blocks / outputs (as Engine.configure assigns them), including two weighted outputs of different term kinds.",
     note="Engines are well typed and keep their activation methods (assumptions of the property); over-reporting by the code is not an alarm.",
     technique="TLA+ specification + TLC exhaustive subset enumeration with canary; spec->code replay",
     ref="6. C19")
@@ -87,7 +87,7 @@ T["C02"] = dict(
     technique="TLA+ interpreter (batch = fold of rows) evaluated by TLC; spec->code replay in float / array / matrix modes under all batch partitions",
     ref="6. C02")
 T["C13"] = dict(
-    text="spec/MC_Lifecycle.tla: instances are (description, state) pairs of Engine.tla; TLC enumerates every behaviour of 4 (thorough 5) actions over set inputs / process / restart / copy-and-switch / switch / edit a weight / toggle a rule / unload a rule with up to 3 instances on 4 engines (Mamdani, chained blocks, Takagi-Sugeno with a Linear term referencing the engine, lock-previous) and checks history-freedom, restart = fresh, copy = duplicate and independence of the instances not operated on; canary: process without clearing must fail. Every behaviour is replayed on real engines: full projection of every instance after every action plus an identity scan (no shared mutable object, engine references point home).",
+    text="spec/MC_Lifecycle.tla: instances are (description, state) pairs of Engine.tla; TLC enumerates every behaviour of 4 (thorough 5) actions over set inputs / process / restart / copy-and-switch / switch / edit a weight / toggle a rule / unload a rule with up to 3 instances on 4 engines (Mamdani, chained blocks, Takagi-Sugeno with a Linear term referencing the engine, lock-previous) and checks history-freedom, restart = fresh, copy = duplicate and independence of the instances not operated on; canary: process without clearing must fail. Every behaviour is replayed on real engines: full projection of every instance after every action plus an identity scan (no shared mutable object, engine references point home). In edit mode (EditMode) every behaviour is built around one of 19 kinds of configuration edit (term parameters incl. Linear coefficients, operators, defuzzifier class / type / resolution, activation parameters, enabled flags, lock-previous, default) on 10 engines, interleaved with set / process / restart / copy.",
     note="Bounded behaviours; Function terms not yet in the engine description.",
     technique="TLA+ state machine + TLC exhaustive behaviours with canary; spec->code replay of all behaviours with multi-instance projection",
     ref="6. C13")
@@ -99,7 +99,7 @@ T["C18"] = dict(
     ref="6. C18")
 
 T["C16"] = dict(
-    text="spec/RuleSyntax.tla holds the three documented machines (Rule.parse, Antecedent.load over the shunting-yard postfix, Consequent.load) and the documented grammar; spec/MC_RuleParse.tla runs them with TLC on every antecedent token sequence up to length 4 (thorough 5) over 12 symbols, every consequent sequence up to length 4 (5) and every single-error mutant of 4 valid rules, checking that the machines accept whatever the grammar derives and reject every listed error class. Every text is replayed through Rule.create, Rule.parse+load (is_loaded false after failure), a sample through RuleBlock.load_rules and FllImporter; outcome must be success (then export/activate/trigger work) or SyntaxError/ValueError/KeyError; internal errors, accepted must-reject texts, and texts accepted although the machines reject and the grammar does not derive them are violations. ~900-4000 line/token mutants of an FLL document: no internal error, accepted documents export and reach a fixed point after one cycle.",
+    text="spec/RuleSyntax.tla holds the three documented machines (Rule.parse, Antecedent.load over the shunting-yard postfix, Consequent.load) and the documented grammar; spec/MC_RuleParse.tla runs them with TLC on every antecedent token sequence up to length 4 (thorough 5) over 12 symbols, every consequent sequence up to length 4 (5) and every single-error mutant of 4 valid rules, checking that the machines accept whatever the grammar derives and reject every listed error class. Every text is replayed through Rule.create, Rule.parse+load (is_loaded false after failure), a sample through RuleBlock.load_rules and FllImporter; outcome must be success (then export/activate/trigger work) or SyntaxError/ValueError/KeyError; internal errors, accepted must-reject texts, and texts accepted although the machines reject and the grammar does not derive them are violations. ~900-4000 line/token mutants of an FLL document: no internal error, accepted documents export and reach a fixed point after one cycle. A previously loaded rule whose text is edited and re-loaded must end unloaded when the re-load fails.",
     note="The model predicts the code's verdict on every enumerated text at the pinned commit (0 divergences after the TypeError fix). FLL documents are mutated by the harness (the FLL grammar itself is specified under C14).",
     technique="TLA+ parser machines + TLC exhaustive enumeration of short token sequences and mutants; spec->code replay with verdict prediction",
     ref="6. C16")
